@@ -147,7 +147,7 @@ func GenDecl(t *rapid.T, o DeclOpts) *refmodel.Decl {
 				has = true
 			}
 		}
-		if !has && kind == "log" {
+		if !has && kind != "trace" {
 			fields = append(fields, "block_time")
 		}
 	}
